@@ -19,11 +19,17 @@ import (
 	"hash/fnv"
 	"os"
 	"path/filepath"
+	"regexp"
+	"runtime"
 	"runtime/debug"
 	"sort"
+	"strconv"
 	"strings"
 	"sync"
+	"sync/atomic"
+	"syscall"
 	"testing"
+	"time"
 
 	"pgregory.net/rapid"
 )
@@ -296,18 +302,146 @@ func Run[S any](t *testing.T, spec Spec[S]) {
 // ("never crashes") and is reported as kind "panic" with the case, so that it is shrunk and replayable; any other panic
 // (the harness's own code, the Go runtime) is passed on and ends the run as inconclusive.
 func safeExec[S any](spec Spec[S], s S) (res Result) {
-	defer func() {
-		p := recover()
-		if p == nil {
-			return
-		}
-		stack := string(debug.Stack())
-		if !panicUnderTest(stack) {
-			panic(p)
-		}
-		res = Result{Violations: []Violation{V("panic", "the code under test panicked: %v\n%s", p, firstFrames(stack, 12))}}
+	type outcome struct {
+		res   Result
+		p     any
+		stack string
+	}
+	done := make(chan outcome, 1)
+	go func() {
+		var o outcome
+		defer func() {
+			if p := recover(); p != nil {
+				o.p, o.stack = p, string(debug.Stack())
+			}
+			done <- o
+		}()
+		o.res = spec.Exec(s)
 	}()
-	return spec.Exec(s)
+	finish := func(o outcome) Result {
+		if o.p == nil {
+			return o.res
+		}
+		if !panicUnderTest(o.stack) {
+			panic(o.p)
+		}
+		return Result{Violations: []Violation{V("panic", "the code under test panicked: %v\n%s", o.p, firstFrames(o.stack, 12))}}
+	}
+	// A case that does not come back: when a goroutine has been waiting for a sync.Mutex / RWMutex inside the module
+	// under test for seconds of real time (virtual time cannot pass meanwhile, nothing in the harness holds such a
+	// lock) while the process uses no processor time, the code under test has left a lock locked: a violation ("hang"),
+	// not a slow machine.
+	wait := hangAfter()
+	for {
+		select {
+		case o := <-done:
+			return finish(o)
+		case <-time.After(wait):
+		}
+		first := lockWaiters()
+		if len(first) > 0 {
+			cpu0 := cpuUsed()
+			select {
+			case o := <-done:
+				return finish(o)
+			case <-time.After(5 * time.Second):
+			}
+			second := lockWaiters()
+			// (a process that is merely slow keeps using the processor; one whose goroutines all wait does not)
+			idle := cpuUsed()-cpu0 < 250*time.Millisecond
+			for id, st := range first {
+				if _, still := second[id]; still && idle {
+					hangSeen.Store(true)
+					return Result{Violations: []Violation{V("hang", "the case did not return: after %s a goroutine is still waiting for a lock inside the code under test, was 5 s earlier, and the process has been idle in between (a lock that is never released)\n%s", wait+5*time.Second, st)}}
+				}
+			}
+		}
+		wait = 30 * time.Second
+	}
+}
+
+var hangSeen atomic.Bool
+
+func cpuUsed() time.Duration {
+	var ru syscall.Rusage
+	if syscall.Getrusage(syscall.RUSAGE_SELF, &ru) != nil {
+		return 0
+	}
+	return time.Duration(ru.Utime.Nano() + ru.Stime.Nano())
+}
+
+// hangAfter: real time after which a case that has not returned is examined (VERIF_HANG_SECS, default 150; 8 s once a
+// hang has been confirmed in this process, so that shrinking and the final re-run stay short).
+func hangAfter() time.Duration {
+	if hangSeen.Load() {
+		return 8 * time.Second
+	}
+	if v, err := strconv.Atoi(os.Getenv("VERIF_HANG_SECS")); err == nil && v > 0 {
+		return time.Duration(v) * time.Second
+	}
+	return 150 * time.Second
+}
+
+var lockWaitRe = regexp.MustCompile(`^goroutine (\d+) \[sync\.(?:RW)?Mutex\.R?Lock`)
+
+var bubbleRe = regexp.MustCompile(`synctest bubble (\d+)`)
+
+// lockWaiters returns, by goroutine id, the stacks of the goroutines that wait for a mutex in a function of the module
+// under test and whose lock cannot be held by anyone who is merely waiting for something else: a waiter is dropped when
+// another goroutine of the same synctest bubble (of the whole process outside bubbles) is blocked somewhere below a
+// function of the module under test - it may hold the lock while it waits for virtual time, which cannot pass while
+// the waiter is not durably blocked: an artefact of the bubble, not a lock that is never released.
+func lockWaiters() map[string]string {
+	buf := make([]byte, 16<<20)
+	buf = buf[:runtime.Stack(buf, true)]
+	out := map[string]string{}
+	bubbleOf := map[string]string{}
+	possibleHolder := map[string]bool{} // by bubble ("" = outside)
+	for _, g := range strings.Split(string(buf), "\n\n") {
+		head, _, _ := strings.Cut(g, "\n")
+		bubble := ""
+		if bm := bubbleRe.FindStringSubmatch(head); bm != nil {
+			bubble = bm[1]
+		}
+		lines := strings.Split(g, "\n")[1:]
+		if m := lockWaitRe.FindStringSubmatch(g); m != nil {
+			for _, l := range lines {
+				if strings.HasPrefix(l, "\t") || strings.HasPrefix(l, "sync.") || strings.HasPrefix(l, "internal/") || strings.HasPrefix(l, "runtime.") {
+					continue
+				}
+				// the first frame outside sync / runtime: the function that asked for the lock
+				if strings.HasPrefix(l, "github.com/prometheus/alertmanager/") {
+					out[m[1]] = firstLines(g, 14)
+					bubbleOf[m[1]] = bubble
+				}
+				break
+			}
+			continue
+		}
+		if strings.Contains(head, "[running") || strings.Contains(head, "[runnable") {
+			continue
+		}
+		for _, l := range lines {
+			if strings.HasPrefix(l, "github.com/prometheus/alertmanager/") {
+				possibleHolder[bubble] = true
+				break
+			}
+		}
+	}
+	for id := range out {
+		if possibleHolder[bubbleOf[id]] {
+			delete(out, id)
+		}
+	}
+	return out
+}
+
+func firstLines(s string, n int) string {
+	lines := strings.Split(s, "\n")
+	if len(lines) > n {
+		lines = lines[:n]
+	}
+	return strings.Join(lines, "\n")
 }
 
 // panicUnderTest reports whether, in a stack printed by debug.Stack inside a deferred recover, the function that
